@@ -61,7 +61,7 @@ def dueBlockNote (sd : SideSt) (t : Int) : String :=
   match sd.slots.filterMap (fun x => match x with
       | some (.blockOutgoing _ dur _ replace _, due) => if due == t then some (dur, replace) else none
       | _ => none) with
-  | (dur, replace) :: _ => s!" (a BlockOutgoing with duration {dur}us replace={replace} is due at this instant and its BlockingBegin has not been reported yet)"
+  | (dur, replace) :: _ => s!" (a BlockOutgoing with {durClass dur} duration {dur}us replace={replace} is due at this instant and its BlockingBegin has not been reported yet)"
   | [] => ""
 
 /-- blocking that should have ended before time `t` -/
@@ -76,7 +76,7 @@ def stepEv (st : MonSt) (x : EvActs) : Except String MonSt := do
   let t := e.time
   for cl in [true, false] do
     if let some b := overdue (st.side cl) t then
-      throw s!"BlockingEnd missing: {sideName cl} blocking (last started or updated with duration {b.lastDur}ns) expired at {b.expiry} but time moved to {t}"
+      throw s!"BlockingEnd missing: {sideName cl} blocking (last started or updated with {durClass b.lastDur} duration {b.lastDur}ns) expired at {b.expiry} but time moved to {t}"
   let sd := st.side e.client
   let sd ← match e.event with
     | .blockingBegin m =>
